@@ -19,7 +19,7 @@
    abstractions agree is checked on the implementation by harness/props/c03.py. *)
 From Coq Require Import QArith Reals List Bool.
 From Coquelicot Require Import Coquelicot.
-From SV Require Import model.TubeMech gen.TubeMesh proofs.TubeMechProofs proofs.Lame.
+From SV Require Import model.TubeMech gen.TubeMesh proofs.TubeMechProofs proofs.Lame model.FE1D proofs.FE1DProofs.
 Import ListNotations.
 
 Theorem C03_conn3d_is_the_cell_table :
@@ -134,3 +134,21 @@ Theorem C03_axial_slope_is_youngs_modulus :
   forall A ez T2, (lam * ((A - lam * ez) / (lam + mu) + ez) + 2 * mu * ez - T2 = E * ez + lam * A / (lam + mu) - T2)%R.
 Proof. exact axial_slope. Qed.
 Print Assumptions C03_axial_slope_is_youngs_modulus.
+
+(* the axisymmetric finite-element equations (model/FE1D.v; the 1D results of the implementation are certified
+   against them in exact arithmetic by harness/props/c03.py) *)
+Theorem C03_fe1d_nodal_forces_sum_to_the_hoop_pull :
+  forall r0 r1 g srr stt szz, ~ (r1 - r0 == 0)%Q -> ~ (r0 + xi g * (r1 - r0) == 0)%Q ->
+  (fst (gp_force r0 r1 g (srr, stt, szz)) + snd (gp_force r0 r1 g (srr, stt, szz))
+   == wt g * (r1 - r0) * (stt - srr) / (r0 + xi g * (r1 - r0)))%Q.
+Proof. exact gp_force_sum. Qed.
+Print Assumptions C03_fe1d_nodal_forces_sum_to_the_hoop_pull.
+
+Theorem C03_fe1d_hooke_differences :
+  forall ez r0 r1 u0 u1 g d,
+  let '(srr, stt, szz) := gp_stress ez r0 r1 u0 u1 g d in
+  let er := ((u1 - u0) / (r1 - r0))%Q in
+  let et := (((1 - xi g) * u0 + xi g * u1) / (r0 + xi g * (r1 - r0)))%Q in
+  (srr - stt == 2 * mu d * (er - et) /\ szz - stt == 2 * mu d * (ez - et))%Q.
+Proof. exact gp_stress_differences. Qed.
+Print Assumptions C03_fe1d_hooke_differences.
